@@ -1092,9 +1092,9 @@ def enum_plan(run):
     if th:
         plan += [
             ({'n': 1, 'maxQ': 0, 'ncb': 1}, 2, 2, 3, 6000, rng.randrange(3000)),
-            ({'n': 2, 'maxQ': 0, 'ncb': 2}, 1, 1, 3, 6000, rng.randrange(20000)),
-            ({'n': 2, 'maxQ': 1, 'ncb': 1}, 2, 1, 3, 6000, rng.randrange(20000)),
-            ({'n': 3, 'maxQ': 2, 'ncb': 1}, 1, 1, 2, 6000, rng.randrange(20000)),
+            ({'n': 2, 'maxQ': 0, 'ncb': 2}, 1, 1, 3, 4000, rng.randrange(20000)),
+            ({'n': 2, 'maxQ': 1, 'ncb': 1}, 2, 1, 3, 4000, rng.randrange(20000)),
+            ({'n': 3, 'maxQ': 2, 'ncb': 1}, 1, 1, 2, 4000, rng.randrange(20000)),
         ]
     return plan
 
@@ -1157,7 +1157,7 @@ def schedule_batches(run):
                 if cap is None:
                     run.count('enum-complete(all schedules with <= %d preemptions):n%d-x%d-cb%d' % (pb, cfg['n'], per, cfg['ncb']), done)
                 break
-    nwalk = 30000 if run.thorough else 1800
+    nwalk = 20000 if run.thorough else 1800
     while nwalk > 0:
         reqs = walk_requests(run, min(BATCH, nwalk))
         nwalk -= len(reqs)
@@ -1330,7 +1330,7 @@ def run(run):
             break
     run.extra['real_wall_s'] = round(real_wall, 1)
     # schedules chosen from the REAL enabledness (not filtered by the model): the model must follow them
-    walks = gen_real_walks(run.rng, 20000 if run.thorough else 900, run.thorough)
+    walks = gen_real_walks(run.rng, 12000 if run.thorough else 900, run.thorough)
     t0 = time.time()
     wres = common.pmap(work_walk, walks, chunksize=16)
     run.extra['real_walk_wall_s'] = round(time.time() - t0, 1)
@@ -1349,7 +1349,7 @@ def run(run):
                 run.count('with-refusal')
         judge_walk(run, cfg, wk, obs, model)
     # listener with BOTH an HTTP and an HTTPS port: real-driven schedules, the two-server model must follow
-    walks2 = gen_real_walks(run.rng, 8000 if run.thorough else 500, run.thorough, https=True)
+    walks2 = gen_real_walks(run.rng, 5000 if run.thorough else 500, run.thorough, https=True)
     t0 = time.time()
     wres2 = common.pmap(work_walk, walks2, chunksize=16)
     ok2 = [(cfg, wk, obs) for (cfg, wk), obs in zip(walks2, wres2) if 'crash' not in obs]
